@@ -989,6 +989,12 @@ def _describe(trace):
     return d
 
 
+@findings.predicate("load_key_error")
+def _p_load_key_error(trace, violation):
+    """D5: a load failing with KeyError (a mnemonic with a character that case-folds to an ASCII letter)."""
+    return violation.get("kind") == "load-failed-with-untyped-error" and violation.get("got") == "KeyError"
+
+
 @findings.predicate("load_value_error")
 def _p_load_value_error(trace, violation):
     """D3: a load failing with ValueError (leading-zero decimal literal / digit limit)."""
